@@ -214,7 +214,11 @@ int main()
       printf("case %s\n", c.id.c_str());
       fflush(stdout);
       pid_t pid = fork();
-      if (pid == 0) runCase(c);
+      if (pid == 0)
+      {
+        setvbuf(stdout, NULL, _IOLBF, 0);   // a crashing child (assert, sanitizer) keeps its trace
+        runCase(c);
+      }
       int st = 0;
       waitpid(pid, &st, 0);
       if (!(WIFEXITED(st) && WEXITSTATUS(st) == 0))
